@@ -6,6 +6,7 @@ flush and plugins replaced by recording doubles that raise on demand), with trac
 disabled and arbitrary pre-existing sys/threading trace functions; the hooks read back with
 sys.gettrace()/threading.gettrace(), the started flag, the handler's reaction to an event and the
 steps attempted by each shutdown are compared inside Coq with Lifecycle.ltrace."""
+import os
 import sys
 import threading
 
@@ -412,6 +413,50 @@ def failed_start(ctx):
         api.load_plugins = saved_load
 
 
+def notrace_from_environment(ctx):
+    """Tracing disabled BY CONFIGURATION means by the code-supplied map or by the DEEP_NO_TRACE variable alike: the process's trace hooks
+    stay untouched through start, a second start and shutdown."""
+    import deep.api.deep as api
+    from deep.config.config_service import ConfigService
+    from deep.config.tracepoint_config import TracepointConfigService
+    saved_load = api.load_plugins
+    api.load_plugins = lambda config, custom=None: []
+    old_sys, old_thr = sys.gettrace(), threading.gettrace()
+    saved_env = os.environ.get("DEEP_NO_TRACE")
+    try:
+        for how in ("code", "environment"):
+            for word in ("True", "1", "yes"):
+                if how == "environment":
+                    os.environ["DEEP_NO_TRACE"] = word
+                    custom = {"APP_ROOT": "/app", "SERVICE_URL": "localhost:1"}
+                else:
+                    os.environ.pop("DEEP_NO_TRACE", None)
+                    custom = {"APP_ROOT": "/app", "SERVICE_URL": "localhost:1", "NO_TRACE": word}
+                cfg = ConfigService(custom, tracepoints=TracepointConfigService())
+                d = api.Deep(cfg)
+                d.grpc.start = lambda: None
+                d.poll = type("Poll", (), {"start": lambda self: None, "shutdown": lambda self: None})()
+                sys.settrace(host_a)
+                threading.settrace(host_b)
+                seen = []
+                for op in (d.start, d.start, d.shutdown):
+                    op()
+                    seen.append((sys.gettrace() is host_a, threading.gettrace() is host_b))
+                j = dict(tracing_disabled_by="%s NO_TRACE=%s" % (how, word), host_hooks_in_place_after_start_start_shutdown=seen)
+                ctx.case(j, nontrivial=True, bucket="notrace-" + how)
+                if seen != [(True, True)] * 3:
+                    ctx.fail("tracing is disabled (%s) and the process's trace hooks did not stay untouched: host hooks in place after "
+                             "start / start / shutdown: %r" % (j["tracing_disabled_by"], seen), j, kind="history", tag="notrace-" + how)
+    finally:
+        if saved_env is None:
+            os.environ.pop("DEEP_NO_TRACE", None)
+        else:
+            os.environ["DEEP_NO_TRACE"] = saved_env
+        sys.settrace(old_sys)
+        threading.settrace(old_thr)
+        api.load_plugins = saved_load
+
+
 def e2_clear():
     from deep.thread_local import ThreadLocal
     ThreadLocal._ThreadLocal__store.clear()
@@ -449,6 +494,7 @@ def run(ctx):
     restart_with_real_poller(ctx)
     poll_in_flight(ctx)
     failed_start(ctx)
+    notrace_from_environment(ctx)
 
 
 def replay(ctx, data):
